@@ -28,7 +28,8 @@ Proof. exact tables_masks. Qed.
 (* ------------------------------------------------------------------------------------------
    The algebra: for EVERY expression tree (any depth) over well-formed primitives, every field
    with conjugation satisfying [laws] (Laws.v), every family of library leaves that are
-   extensional and homogeneous, and every mode index k that the advertised-mode rule [advk]
+   extensional and homogeneous and whose reserved member [null_id] (NullOperator) is the zero map,
+   and every mode index k that the advertised-mode rule [advk]
    grants: the operator that NIFTy's construction-time simplifications build (model [build])
    advertises mode k and acts exactly as the compositional matrix meaning [sem] of the
    expression.  Modes: k = 0 TIMES, 1 ADJOINT, 2 INVERSE, 3 ADJOINT_INVERSE; mode = 2^k. *)
@@ -41,6 +42,7 @@ Theorem C01_build_sound :
     (forall (l : nat) (m : Z) (x y : vec A), (forall i, x i = y i) -> forall i, leaf_apply l m x i = leaf_apply l m y i) ->
     (forall (l : nat) (m : Z) (x : vec A) (c : T A) (i : nat),
         leaf_apply l m (fun j => mul A (x j) c) i = mul A (leaf_apply l m x i) c) ->
+    (forall (m : Z) (x : vec A) (i : nat), leaf_apply null_id m x i = zero A) ->
   forall e : expr A, wfe A e ->
   forall k : Z, In k [0;1;2;3]%Z -> advk A e k = true ->
     Z.testbit (cap A (build A e)) k = true /\
@@ -49,18 +51,22 @@ Theorem C01_build_sound :
 Proof. exact build_sound_full. Qed.
 
 (* _flip_modes / .adjoint / .inverse of ANY well-formed operator object: the result acts as the
-   original in the mode with the transform bits XOR-ed in, and advertises exactly the remapped
-   capability bits (flip group: t = 0 is the identity, t o t' = t xor t'). *)
+   original in the mode with the transform bits XOR-ed in, and advertises (at least) the remapped
+   capability bits (flip group: t = 0 is the identity, t o t' = t xor t').  "At least": re-making a
+   flipped chain can expose a NullOperator that was hidden behind an adapter, and the collapsed
+   chain then advertises TIMES|ADJOINT_TIMES whatever its other factors provide -- see
+   C01_flip_caps_not_exact below; this is NIFTy's behaviour, and it is sound (the action is zero). *)
 Theorem C01_flip_sound :
   forall (A : arith), laws A ->
   forall leaf_apply : nat -> Z -> vec A -> vec A,
     (forall (l : nat) (m : Z) (x y : vec A), (forall i, x i = y i) -> forall i, leaf_apply l m x i = leaf_apply l m y i) ->
     (forall (l : nat) (m : Z) (x : vec A) (c : T A) (i : nat),
         leaf_apply l m (fun j => mul A (x j) c) i = mul A (leaf_apply l m x i) c) ->
+    (forall (m : Z) (x : vec A) (i : nat), leaf_apply null_id m x i = zero A) ->
   forall (o : op A) (t : Z), wf A o -> In t [0;1;2;3]%Z ->
     wf A (flip A t o) /\
     forall k : Z, In k [0;1;2;3]%Z ->
-      Z.testbit (cap A (flip A t o)) k = Z.testbit (cap A o) (Z.lxor k t) /\
+      (Z.testbit (cap A o) (Z.lxor k t) = true -> Z.testbit (cap A (flip A t o)) k = true) /\
       forall (x : vec A) (i : nat),
         apply A leaf_apply (flip A t o) (Z.shiftl 1 k) x i = apply A leaf_apply o (Z.shiftl 1 (Z.lxor k t)) x i.
 Proof. exact flip_sound_full. Qed.
@@ -74,6 +80,7 @@ Theorem C01_sum_simplify_sound :
     (forall (l : nat) (m : Z) (x y : vec A), (forall i, x i = y i) -> forall i, leaf_apply l m x i = leaf_apply l m y i) ->
     (forall (l : nat) (m : Z) (x : vec A) (c : T A) (i : nat),
         leaf_apply l m (fun j => mul A (x j) c) i = mul A (leaf_apply l m x i) c) ->
+    (forall (m : Z) (x : vec A) (i : nat), leaf_apply null_id m x i = zero A) ->
   forall l : list (op A * bool), Forall (fun p => wf A (fst p)) l ->
     wf A (mk_sum A l) /\
     forall k : Z, (k = 0 \/ k = 1)%Z -> forall (x : vec A) (i : nat),
@@ -82,32 +89,46 @@ Proof. exact mk_sum_sound_full. Qed.
 
 (* ChainOperator.make on ANY list of well-formed operators: the simplified result (identity
    shortcuts, unpacking, collection of real scalings, absorption into the first diagonal, merging
-   of adjacent diagonals) acts as the composition in all four modes and advertises exactly the
-   conjunction of the operands' capabilities. *)
+   of adjacent diagonals, collapse to a NullOperator when one occurs) acts as the composition in
+   all four modes and advertises the conjunction of the operands' capabilities -- exactly when no
+   NullOperator occurs, at least otherwise (the collapsed chain is a fresh NullOperator). *)
 Theorem C01_chain_simplify_sound :
   forall (A : arith), laws A ->
   forall leaf_apply : nat -> Z -> vec A -> vec A,
     (forall (l : nat) (m : Z) (x y : vec A), (forall i, x i = y i) -> forall i, leaf_apply l m x i = leaf_apply l m y i) ->
     (forall (l : nat) (m : Z) (x : vec A) (c : T A) (i : nat),
         leaf_apply l m (fun j => mul A (x j) c) i = mul A (leaf_apply l m x i) c) ->
+    (forall (m : Z) (x : vec A) (i : nat), leaf_apply null_id m x i = zero A) ->
   forall l : list (op A), Forall (wf A) l ->
     wf A (mk_chain A l) /\
     forall k : Z, In k [0;1;2;3]%Z ->
-      Z.testbit (cap A (mk_chain A l)) k = forallb (fun a => Z.testbit (cap A a) k) l /\
+      (forallb (fun a => Z.testbit (cap A a) k) l = true -> Z.testbit (cap A (mk_chain A l)) k = true) /\
+      (existsb (is_null A) (unpack_chain A l) = false ->
+       Z.testbit (cap A (mk_chain A l)) k = forallb (fun a => Z.testbit (cap A a) k) l) /\
       forall (x : vec A) (i : nat),
         apply A leaf_apply (mk_chain A l) (Z.shiftl 1 k) x i = comp A leaf_apply l k x i.
 Proof. exact mk_chain_sound_full. Qed.
+
+(* The capability equality of C01_flip_sound cannot be exact: a chain whose NullOperator is hidden
+   behind an adjoint adapter, next to a TIMES-only leaf, advertises TIMES only; its adjoint is
+   re-made from [leaf.adjoint; Null], collapses to a NullOperator and advertises TIMES as well,
+   although the original does not advertise ADJOINT_TIMES. *)
+Example C01_flip_caps_not_exact :
+  let o : op QcA := Chain [Adapter (null_op QcA) 1; @Leaf QcA 1%nat 1] in
+  wf QcA o /\ Z.testbit (cap QcA (flip QcA 1 o)) 0 = true /\ Z.testbit (cap QcA o) (Z.lxor 0 1) = false.
+Proof. vm_compute. repeat split; try discriminate; try tauto. Qed.
 
 (* Non-vacuity: the hypotheses are satisfiable (rationals, identity leaves) and a concrete
    expression  D - 2*(L^dagger @ D')  with a negative-sign absorption meets wfe and advk. *)
 Example C01_hyps_satisfiable :
   laws QcA /\
   (forall l m (x y : vec QcA), (forall i, x i = y i) -> forall i, id_leaf l m x i = id_leaf l m y i) /\
+  (forall m (x : vec QcA) i, id_leaf null_id m x i = zero QcA) /\
   let D  : op QcA := @Diag QcA (fun i => Q2Qc (Qmake (Z.of_nat i + 1) 1)) 0 None in
   let D' : op QcA := @Diag QcA (fun i => Q2Qc (Qmake 3 1)) 2 (Some 1%nat) in
   let e := @ESub QcA (@EPrim QcA D) (@EScale QcA (Q2Qc (Qmake 2 1)) (@EComp QcA (@EAdj QcA (@EPrim QcA (@Leaf QcA 0%nat 3))) (@EPrim QcA D'))) in
   wfe QcA e /\ advk QcA e 0 = true /\ advk QcA e 1 = true /\ advk QcA e 2 = false.
 Proof.
-  split; [exact QcA_laws|]. split; [exact id_leaf_ext|].
+  split; [exact QcA_laws|]. split; [exact id_leaf_ext|]. split; [exact id_leaf_null|].
   cbn. repeat split; try (left; reflexivity); try (right; right; left; reflexivity); try discriminate; try reflexivity.
 Qed.
